@@ -521,7 +521,8 @@ fn make_transparent_impl
             let id = &field.ident;
             quote!(#encode_fn(&self.#id, __e777, __ctx777))
         } else {
-            quote!(#encode_fn(&self.0, __e777, __ctx777))
+            let pos = syn::Index::from(field.pos);
+            quote!(#encode_fn(&self.#pos, __e777, __ctx777))
         };
 
     Ok(quote! {
